@@ -67,3 +67,19 @@ Example C06_example :
   | Err _ => False
   end.
 Proof. vm_compute. split; reflexivity. Qed.
+
+(* a zero-length external address (ExternalAddress(0), addr_extern$01 len = 0): the tag and the
+   9-bit length are the whole encoding, the next field follows immediately, and loading returns
+   the same values with nothing left; a non-zero value does not fit in 0 bits and is refused *)
+Example C06_extern_len0 :
+  let vs := [VAddr (AddrExt 0 0); VUint 3 5] in
+  forallb tval_ok vs = true /\
+  match store_all b_empty vs with
+  | Ok b => b_bits b = [false; true] ++ repeat false 9 ++ [true; false; true] /\ b_refs b = [] /\
+            load_all (mkS (b_bits b) (b_refs b)) (map ty_of vs) = Ok (vs, mkS [] []) /\
+            preload1 (mkS (b_bits b) (b_refs b)) TAddr = Ok (VAddr (AddrExt 0 0))
+  | Err _ => False
+  end /\
+  tval_ok (VAddr (AddrExt 3 0)) = false /\
+  store1 b_empty (VAddr (AddrExt 3 0)) = Err EOverflow.
+Proof. vm_compute. repeat split; reflexivity. Qed.
